@@ -35,6 +35,10 @@ pub enum HookAction {
     InsertEmptyQualifier(String),
     InsertInvalidKey(String, String),
     BlankExistingQualifier(usize),
+    /// Blank every qualifier value (through `iter_mut`).
+    BlankAllQualifiers,
+    /// Blank the i-th and the (i+1)-th qualifier (neighbours in key order).
+    BlankAdjacentPair(usize),
     RemoveQualifier(usize),
     ClearQualifiers,
     InsertChecksumWellFormed(String),
@@ -105,6 +109,8 @@ impl HookAction {
             HookAction::InsertEmptyQualifier(_) => "hook.insert_empty_qualifier",
             HookAction::InsertInvalidKey(..) => "hook.insert_invalid_key",
             HookAction::BlankExistingQualifier(_) => "hook.blank_existing_qualifier",
+            HookAction::BlankAllQualifiers => "hook.blank_all_qualifiers",
+            HookAction::BlankAdjacentPair(_) => "hook.blank_adjacent_pair",
             HookAction::RemoveQualifier(_) => "hook.remove_qualifier",
             HookAction::ClearQualifiers => "hook.clear_qualifiers",
             HookAction::InsertChecksumWellFormed(_) => "hook.insert_checksum_well_formed",
@@ -125,6 +131,8 @@ pub const ACTION_KINDS: &[&str] = &[
     "hook.insert_empty_qualifier",
     "hook.insert_invalid_key",
     "hook.blank_existing_qualifier",
+    "hook.blank_all_qualifiers",
+    "hook.blank_adjacent_pair",
     "hook.remove_qualifier",
     "hook.clear_qualifiers",
     "hook.insert_checksum_well_formed",
@@ -382,6 +390,22 @@ impl PurlShape for SimShape {
                     if n > 0 {
                         if let Some((_, v)) = parts.qualifiers.iter_mut().nth(i % n) {
                             *v = Default::default();
+                        }
+                    }
+                },
+                HookAction::BlankAllQualifiers => {
+                    for (_, v) in parts.qualifiers.iter_mut() {
+                        *v = Default::default();
+                    }
+                },
+                HookAction::BlankAdjacentPair(i) => {
+                    let n = parts.qualifiers.len();
+                    if n > 0 {
+                        let first = i % n;
+                        for (at, (_, v)) in parts.qualifiers.iter_mut().enumerate() {
+                            if at == first || at == first + 1 {
+                                *v = Default::default();
+                            }
                         }
                     }
                 },
@@ -1001,6 +1025,8 @@ fn action_menu(rng: &mut Rng) -> Vec<HookAction> {
         HookAction::InsertEmptyQualifier(gen::qualifier_key(rng)),
         HookAction::InsertInvalidKey((*rng.pick(&["", "a b", "k!", "é", "a=b", "%41"])).to_owned(), rich(rng)),
         HookAction::BlankExistingQualifier(rng.below(4)),
+        HookAction::BlankAllQualifiers,
+        HookAction::BlankAdjacentPair(rng.below(4)),
         HookAction::RemoveQualifier(rng.below(4)),
         HookAction::ClearQualifiers,
         HookAction::InsertChecksumWellFormed(gen::checksum_text(rng, true)),
